@@ -204,7 +204,7 @@ func sxSel(s *Sel) *Sx {
 	for _, r := range s.ME {
 		x := Ls(At(r.Key), At(r.Op))
 		for _, v := range r.Vals {
-			x.Add(At(v))
+			x.Add(At(tilde(v)))
 		}
 		me.Add(x)
 	}
@@ -416,7 +416,7 @@ func pSel(s *Sx) *Sel {
 	for _, x := range s.L[2].Args() {
 		q := Req{Key: x.L[0].A, Op: x.L[1].A}
 		for _, v := range x.L[2:] {
-			q.Vals = append(q.Vals, v.A)
+			q.Vals = append(q.Vals, untilde(v.A))
 		}
 		r.ME = append(r.ME, q)
 	}
